@@ -80,9 +80,27 @@ Proof. intros M g HR. apply queue_capacity. apply qreach_inv; auto. Qed.
 Theorem G_queue_fifo : forall M g, QReach M g ->
     (forall p, plog (nth p (procs g) dps) =
                slog (nth p (procs g) dps) ++ ftr (nth (2 * p + 1) (qthr g) dqt) ++ buf (nth p (procs g) dps)) /\
-    sendlog g = getlog g ++ pipe g /\
-    (forall m, zcnt m (sendlog g) = sumz (fun ps => zcnt m (slog ps)) (procs g)).
+    map snd (sendlog g) = getlog g ++ pipe g /\
+    (forall p, from_proc p (sendlog g) = slog (nth p (procs g) dps)) /\
+    (forall m, zcnt m (map snd (sendlog g)) = sumz (fun ps => zcnt m (slog ps)) (procs g)).
 Proof. intros M g HR. apply (queue_fifo M). apply qreach_inv; auto. Qed.
+
+Theorem G_get_returns_received : forall M g m, QReach M g -> m <> E_EMPTY ->
+    zcnt m (getlog g) =
+    sumz (fun t => rcount m (qresults t)) (qthr g) + sumz (fun t => zcnt m (gheld t)) (qthr g).
+Proof. intros M g m HR. apply (get_returns_received M). apply qreach_inv; auto. Qed.
+
+Theorem G_put_get_exact : forall M g m, QReach M g -> m <> E_EMPTY ->
+    sumz (fun ps => zcnt m (plog ps)) (procs g) =
+    sumz (fun t => rcount m (qresults t)) (qthr g) + sumz (fun t => zcnt m (gheld t)) (qthr g)
+    + zcnt m (pipe g)
+    + psum (fun p => zcnt m (ftr (nth (2 * p + 1) (qthr g) dqt))) (length (procs g))
+    + sumz (fun ps => zcnt m (buf ps)) (procs g).
+Proof. intros M g m HR. apply (put_get_exact M). apply qreach_inv; auto. Qed.
+
+Theorem G_feeder_ends_only_on_unpicklable : forall M g t, QReach M g -> In t (qthr g) ->
+    qfeeder t = true -> qpc t = 14%nat -> picklable (r2 (qrg t)) = false.
+Proof. intros M g t HR. apply (feeder_ends_only_on_unpicklable M). apply qreach_inv; auto. Qed.
 
 Theorem G_queue_no_loss_no_dup : forall M g m, QReach M g ->
     sumz (fun ps => zcnt m (plog ps)) (procs g) =
@@ -90,6 +108,29 @@ Theorem G_queue_no_loss_no_dup : forall M g m, QReach M g ->
     + psum (fun p => zcnt m (ftr (nth (2 * p + 1) (qthr g) dqt))) (length (procs g))
     + sumz (fun ps => zcnt m (buf ps)) (procs g).
 Proof. intros M g m HR. apply (queue_no_loss_no_dup M). apply qreach_inv; auto. Qed.
+
+Theorem G_unfinished_count : forall M g, QReach M g -> qv 3 g = sumz qt_unf (qthr g) /\ 0 <= qv 3 g.
+Proof. intros M g HR. apply (unfinished_count M). apply qreach_inv; auto. Qed.
+
+Theorem G_task_done_raises_iff_matched : forall M g i t g' e, QReach M g ->
+    nth_error (qthr g) i = Some t -> qfin t = false -> qfeeder t = false ->
+    qcid t = 4%nat -> qpc t = 1%nat ->
+    qstep P_queue.code g i true = Some (g', e) ->
+    (snd e = 0 <-> sumz qt_unf (qthr g) = 0) /\ (snd e = 1 <-> 0 < sumz qt_unf (qthr g)).
+Proof.
+  intros M g i t g' e HR Ht Hf Hfd Hc Hp H. rewrite gqstep in H.
+  eapply (task_done_raises_iff_matched M); eauto. apply qreach_inv; auto.
+Qed.
+
+Theorem G_join_test_iff_matched : forall M g i t g' e, QReach M g ->
+    nth_error (qthr g) i = Some t -> qfin t = false -> qfeeder t = false ->
+    qcid t = 5%nat -> qpc t = 1%nat ->
+    qstep P_queue.code g i true = Some (g', e) ->
+    (snd e = 1 <-> sumz qt_unf (qthr g) = 0).
+Proof.
+  intros M g i t g' e HR Ht Hf Hfd Hc Hp H. rewrite gqstep in H.
+  eapply (join_test_iff_matched M); eauto. apply qreach_inv; auto.
+Qed.
 
 Theorem G_queue_locks : forall M g, QReach M g ->
     qv 1 g + sumz qt_rl (qthr g) = 1 /\ qv 2 g + sumz qt_wl (qthr g) = 1 /\
@@ -112,7 +153,7 @@ Qed.
 
 Theorem G_empty_only_when_nothing : forall g i t g' e,
     nth_error (qthr g) i = Some t -> qfin t = false -> qfeeder t = false ->
-    qcid t = 1%nat -> qpc t = 17%nat ->
+    qcid t = 1%nat -> qpc t = 19%nat ->
     qstep P_queue.code g i true = Some (g', e) ->
     (snd e = 0 <-> pipe g = []).
 Proof. intros g i t g' e Ht Hf Hfd Hc Hp H. rewrite gqstep in H. eapply empty_only_when_nothing; eauto. Qed.
@@ -160,7 +201,7 @@ Proof.
 Qed.
 
 Lemma qex_witness :
-  QReach 1 qex_state /\ qv 0 qex_state = 0 /\ getlog qex_state = [11] /\ sendlog qex_state = [11] /\
+  QReach 1 qex_state /\ qv 0 qex_state = 0 /\ getlog qex_state = [11] /\ sendlog qex_state = [(0%nat, 11)] /\
   sumz qt_tr (qthr qex_state) = 1 /\ pipe qex_state = [].
 Proof.
   split.
@@ -171,4 +212,61 @@ Proof.
     + apply gen_qrun_smallb_ok. vm_compute. reflexivity.
     + unfold qex_state. rewrite E. reflexivity.
   - vm_compute. repeat split.
+Qed.
+
+(* ================================================================== the feeder's failure path
+   REFUTATION of "lose nothing" for the code as it is.  Queue._feed handles an exception of
+   `ForkingPickler.dumps(obj)` (or of send_bytes) OUTSIDE its `while 1` loop: the thread logs the
+   error and returns.  Capacity 2, process 0 puts an object that cannot be pickled (1000) and
+   then 12, process 1 waits in get().  Both puts are accepted (they return None).  The feeder
+   pops 1000, fails to serialise it and ends.  In the state reached NO step is possible any more
+   (nobody will ever move again): 12 sits in the buffer of process 0 and is never written to the
+   pipe, the consumer waits in recv for ever, and the capacity semaphore is 0 although only one
+   item is waiting and maxsize is 2 (the token of the dropped message is never returned). *)
+Definition qlost_scripts : list (list qcall) :=
+  [[(0%nat, 0, 1, 1000); (0%nat, 0, 1, 12)]; [(1%nat, 0, 1, 0)]].
+Definition qlost_sched : list (nat * bool) :=
+  [(0%nat, true); (0%nat, true); (0%nat, true); (0%nat, true); (0%nat, true); (0%nat, true);
+   (1%nat, true); (1%nat, true); (2%nat, true)].
+Definition qlost_state : qsys := fst (fst (qrun P_queue.code (gen_qinit 2 qlost_scripts) qlost_sched)).
+
+Definition qdeadb (g : qsys) : bool :=
+  forallb (fun i => match qstep P_queue.code g i true, qstep P_queue.code g i false with
+                    | None, None => true | _, _ => false end) (seq 0 (length (qthr g))).
+
+Lemma qdeadb_ok : forall g, qdeadb g = true -> forall i go, qstep P_queue.code g i go = None.
+Proof.
+  intros g H i go. destruct (Nat.lt_ge_cases i (length (qthr g))) as [Hi|Hi].
+  - unfold qdeadb in H. rewrite forallb_forall in H. specialize (H i ltac:(apply in_seq; lia)).
+    destruct go; destruct (qstep P_queue.code g i true), (qstep P_queue.code g i false); congruence.
+  - unfold qstep. replace (nth_error (qthr g) i) with (@None qthread); [reflexivity|].
+    symmetry. apply nth_error_None. lia.
+Qed.
+
+Lemma qlost_witness :
+  QReach 2 qlost_state /\
+  (forall i go, qstep P_queue.code qlost_state i go = None) /\
+  (* both puts of process 0 were accepted *)
+  map snd (qresults (nth 0 (qthr qlost_state) dqt)) = [V_NONE; V_NONE] /\
+  plog (nth 0 (procs qlost_state) dps) = [1000; 12] /\
+  (* the feeder of process 0 is gone, over the message it could not serialise *)
+  qexited P_queue.code (nth 1 (qthr qlost_state) dqt) = true /\
+  ftr (nth 1 (qthr qlost_state) dqt) = [1000] /\
+  (* 12 is buffered for ever: nothing was or will be written to the pipe *)
+  buf (nth 0 (procs qlost_state) dps) = [12] /\ sendlog qlost_state = [] /\ pipe qlost_state = [] /\
+  (* a get is waiting for it, in recv, holding the reader lock *)
+  (let c := nth 2 (qthr qlost_state) dqt in qfin c = false /\ qcid c = 1%nat /\ qpc c = 3%nat) /\
+  (* the capacity semaphore is exhausted although one item is waiting and maxsize is 2 *)
+  qv 0 qlost_state = 0 /\
+  sumz blen (procs qlost_state) + Z.of_nat (length (pipe qlost_state)) = 1.
+Proof.
+  split.
+  - exists qlost_scripts, qlost_sched.
+    destruct (qrun P_queue.code (gen_qinit 2 qlost_scripts) qlost_sched) as [[g es] ok] eqn:E.
+    exists es, ok. split; [lia|]. split; [|split].
+    + repeat constructor; unfold okq; cbn; lia.
+    + apply gen_qrun_smallb_ok. vm_compute. reflexivity.
+    + unfold qlost_state. rewrite E. reflexivity.
+  - split; [apply qdeadb_ok; vm_compute; reflexivity|].
+    vm_compute. repeat split.
 Qed.
